@@ -22,16 +22,22 @@ func propC02umemo(a *Analysis, r *Registry, b *B) {
 	// coefficient slice a: the []int makeslice of length len(t)+1
 	var aSl, ASl *RF
 	b.guard(rB, name+"/a", func() {
-		fc.Ctx.Instrs(func(in ssa.Instruction) {
-			if ms, ok := in.(*ssa.MakeSlice); ok {
-				v := fc.Val(ms)
-				if strings.Contains(ms.Type().String(), "map") {
-					ASl = v
-				} else {
-					aSl = v
+		// (the coefficients may be built by a helper)
+		for _, sfc := range fc.BoundCallees(1) {
+			sfc := sfc
+			sfc.Ctx.Instrs(func(in ssa.Instruction) {
+				if ms, ok := in.(*ssa.MakeSlice); ok {
+					v := sfc.Val(ms)
+					if strings.Contains(ms.Type().String(), "map") {
+						if ASl == nil {
+							ASl = v
+						}
+					} else if aSl == nil {
+						aSl = v
+					}
 				}
-			}
-		})
+			})
+		}
 		if aSl == nil || ASl == nil {
 			anchorFail("coefficient slice / memo table not found")
 		}
@@ -40,30 +46,34 @@ func propC02umemo(a *Analysis, r *Registry, b *B) {
 		b.Eq(rB, name+"/len(a)", b.pos(fn), aSl.SingleAtom().Args[0], env, "len(t)+1")
 		b.Eq(rB, name+"/len(A)", b.pos(fn), ASl.SingleAtom().Args[0], env, "len(t)+1")
 		n := 0
-		fc.Ctx.Instrs(func(in ssa.Instruction) {
-			st, ok := in.(*ssa.Store)
-			if !ok {
-				return
-			}
-			ia, ok := st.Addr.(*ssa.IndexAddr)
-			if !ok || !fc.Val(ia.X).Equal(aSl) {
-				return
-			}
-			n++
-			k := fc.Val(ia.Index)
-			e2 := X.EnvFor(fn, "twoU", "n1", "t")
-			e2.Set("a", aSl, nil)
-			e2.Set("k", k, nil)
-			if c, isC := k.IsConst(); isC {
-				if c.RatString() != "1" {
-					r.Fail(rB, name+"/a[const]", a.W.InstrPos(st), "unexpected constant index "+c.RatString())
+		top := fc
+		for _, fc := range top.BoundCallees(1) {
+			fc := fc
+			fc.Ctx.Instrs(func(in ssa.Instruction) {
+				st, ok := in.(*ssa.Store)
+				if !ok {
 					return
 				}
-				b.Eq(rB, name+"/a[1]", a.W.InstrPos(st), fc.Val(st.Val), e2, "t[0]")
-				return
-			}
-			b.Eq(rB, name+"/a[k]", a.W.InstrPos(st), fc.Val(st.Val), e2, "a[k-1]+t[k-2]+t[k-1]")
-		})
+				ia, ok := st.Addr.(*ssa.IndexAddr)
+				if !ok || !fc.Val(ia.X).Equal(aSl) {
+					return
+				}
+				n++
+				k := fc.Val(ia.Index)
+				e2 := X.EnvFor(fn, "twoU", "n1", "t")
+				e2.Set("a", aSl, nil)
+				e2.Set("k", k, nil)
+				if c, isC := k.IsConst(); isC {
+					if c.RatString() != "1" {
+						r.Fail(rB, name+"/a[const]", a.W.InstrPos(st), "unexpected constant index "+c.RatString())
+						return
+					}
+					b.Eq(rB, name+"/a[1]", a.W.InstrPos(st), fc.Val(st.Val), e2, "t[0]")
+					return
+				}
+				b.Eq(rB, name+"/a[k]", a.W.InstrPos(st), fc.Val(st.Val), e2, "a[k-1]+t[k-2]+t[k-1]")
+			})
+		}
 		if n != 2 {
 			r.Fail(rB, name+"/a", b.pos(fn), "expected the two stores a[1]=t[0] and a[k]=a[k-1]+t[k-2]+t[k-1]")
 		}
@@ -180,6 +190,10 @@ func propC02umemo(a *Analysis, r *Registry, b *B) {
 			e := X.EnvFor(fn, "twoU", "n1", "t")
 			e.Set("key", kv, a.W.Lib["stats"].Members["ukey"].Type())
 			asum := fc.Val(baseUpd.Value)
+			if len(fc.loopPhis(asum)) == 0 {
+				// the base case computed by a helper with an early exit: its gated result
+				asum = X.ExpandCalls(asum)
+			}
 			e.Let("bound", "key.twoU-key.n1*(t[0]-key.n1)")
 			vars := b.LoopSystem(rB, name+"/base/sum", where, fc, asum, e, []recSpec{
 				{"Asum", "0", "Asum+mathx.Choose(t[0], key.n1-r2)*mathx.Choose(t[1], r2)"},
@@ -188,8 +202,10 @@ func propC02umemo(a *Analysis, r *Registry, b *B) {
 			if vars != nil {
 				e.Set("r2", vars["r2"], nil)
 				ph := X.phiOf[vars["r2"].SingleAtom().ID]
+				pfc := X.phiFC[vars["r2"].SingleAtom().ID]
 				if ifi, ok := ph.Block().Instrs[len(ph.Block().Instrs)-1].(*ssa.If); ok {
-					b.Eq(rB, name+"/base/r2High", a.W.InstrPos(ifi), fc.Val(ifi.Cond), e, "r2<=ite(0<=bound, idiv(bound, t[0]+t[1]), -1)")
+					// (compared under what is known at the loop: a helper may have left early for bound < 0)
+					b.EqAt(rB, name+"/base/r2High", a.W.InstrPos(ifi), pfc, ifi, pfc.Val(ifi.Cond), e.MustParse("r2<=ite(0<=bound, idiv(bound, t[0]+t[1]), -1)"), "r2 runs up to floor(bound/(t0+t1)), and not at all for bound < 0")
 				} else {
 					r.Fail(rB, name+"/base/r2High", where, "no bound on r2")
 				}
